@@ -42,6 +42,11 @@ type runtimeContextManager struct {
 
 	weakRefPool luagc.Pool
 	gcPolicy    GCPolicy
+
+	// These are true if the hard limit on the resource is not the context's
+	// own, but what its parent had left when it was created.
+	inheritedCpu bool
+	inheritedMem bool
 }
 
 var _ RuntimeContext = (*runtimeContextManager)(nil)
@@ -108,7 +113,10 @@ func (m *runtimeContextManager) PushContext(ctx RuntimeContextDef) {
 	}
 	parent := *m
 	m.startTime = now()
-	m.hardLimits = m.hardLimits.Remove(m.usedResources).Merge(ctx.HardLimits)
+	left := m.hardLimits.Remove(m.usedResources)
+	m.inheritedCpu = m.hardLimits.Cpu > 0 && !smallerLimit(ctx.HardLimits.Cpu, left.Cpu)
+	m.inheritedMem = m.hardLimits.Memory > 0 && !smallerLimit(ctx.HardLimits.Memory, left.Memory)
+	m.hardLimits = left.Merge(ctx.HardLimits)
 	m.softLimits = m.hardLimits.Merge(m.softLimits).Merge(ctx.SoftLimits)
 	m.usedResources = RuntimeResources{}
 	m.requiredFlags |= ctx.RequiredFlags
@@ -177,7 +185,7 @@ func (m *runtimeContextManager) requireCPU(cpuAmount uint64) {
 	}
 	cpuUsed := m.usedResources.Cpu + cpuAmount
 	if atLimit(cpuUsed, m.hardLimits.Cpu) {
-		m.TerminateContext("CPU limit of %d exceeded", m.hardLimits.Cpu)
+		m.terminateContext(cpuResource, "CPU limit of %d exceeded", m.hardLimits.Cpu)
 	}
 	if m.trackTime && m.nextCpuThreshold <= cpuUsed {
 		m.nextCpuThreshold = cpuUsed + cpuThresholdIncrement
@@ -205,7 +213,7 @@ func (m *runtimeContextManager) requireMem(memAmount uint64) {
 	}
 	memUsed := m.usedResources.Memory + memAmount
 	if atLimit(memUsed, m.hardLimits.Memory) {
-		m.TerminateContext("memory limit of %d exceeded", m.hardLimits.Memory)
+		m.terminateContext(memResource, "memory limit of %d exceeded", m.hardLimits.Memory)
 	}
 	m.usedResources.Memory = memUsed
 }
@@ -296,13 +304,41 @@ func (m *runtimeContextManager) KillContext() {
 
 // TerminateContext forcefully terminates the context with the given message.
 func (m *runtimeContextManager) TerminateContext(format string, args ...interface{}) {
+	m.terminateContext(noResource, format, args...)
+}
+
+func (m *runtimeContextManager) terminateContext(resource terminationResource, format string, args ...interface{}) {
 	if m.status != StatusLive {
 		return
 	}
 	m.status = StatusKilled
 	panic(ContextTerminationError{
-		message: fmt.Sprintf(format, args...),
+		message:  fmt.Sprintf(format, args...),
+		resource: resource,
 	})
+}
+
+// propagateTermination is called in the parent of a context that has just been
+// terminated with the error e and popped.  If the hard limit that the child ran
+// into was not its own but the one it inherited from this context (all that
+// this context had left), then this context has run out of that resource as
+// well, so it is terminated too: a nested context (e.g. the one created by
+// pcall) cannot be used to survive the limits of an enclosing one.
+func (m *runtimeContextManager) propagateTermination(child RuntimeContext, e ContextTerminationError) {
+	c, ok := child.(*runtimeContextManager)
+	if !ok {
+		return
+	}
+	switch e.resource {
+	case cpuResource:
+		if c.inheritedCpu {
+			m.terminateContext(cpuResource, "CPU limit of %d exceeded", m.hardLimits.Cpu)
+		}
+	case memResource:
+		if c.inheritedMem {
+			m.terminateContext(memResource, "memory limit of %d exceeded", m.hardLimits.Memory)
+		}
+	}
 }
 
 // Current unix time in ms
